@@ -22,7 +22,14 @@ META = {
         "The translation is cross-checked against the real interpreter on all operand pairs for i1..i4 and "
         "boundary/random values for i8..i64/index; an independent Python bit-pattern reference is the "
         "direct oracle (also for float ops and ops outside the translated fragment); multi-operation "
-        "programs are run on the real interpreter and on the Lean reference interpreter. "
+        "programs are run on the real interpreter and on the Lean reference interpreter; so are an enumerated "
+        "family of every way a cf terminator forwards block arguments (both successors the same block with "
+        "different or permuted operands, different arities, self-loops permuting their own arguments; all value "
+        "types, both conditions) and sessions of several calls on ONE Interpreter instance (no call may change a "
+        "later one); symbol resolution is checked on modules whose function names differ only in spelling "
+        "(@a::@b vs \"a.b\", \"a::b\", \"a_b\", partially merged paths), every function adding its own constant, "
+        "called in every colliding order as str / SymbolRefAttr / through func.call, and again after the callee "
+        "was replaced in the module. "
         "XdslProofs.C15Casts proves the translated cast kernels (_truncate, _sign_extend, run_indexcast) equal "
         "BitVec truncate/signExtend for all positive widths; XdslProofs.C15FloatLogic proves that the branching "
         "of minimumf/maximumf/cmpf (hand model XdslModel/ArithFloatLogic.lean over abstract IEEE primitives, "
@@ -49,7 +56,8 @@ META = {
         "rounding boundary cases; addf/subf/mulf also on f16 and bf16 patterns against an integer-arithmetic "
         "rounding reference, and on f32/f64 against Lean's native Float32/Float through the `sem` driver). Non-trivial = the result wraps, an operand has its top bit set, or the "
         "operand is given as a non-canonical (unsigned) representative; distinct = distinct (op, width, "
-        "operands). Inputs on which MLIR gives poison/undefined are generated but excluded from the oracle."
+        "operands). Program level: distinct (program, input) / (program, position in the session) / (symbol module, "
+        "call sequence). Inputs on which MLIR gives poison/undefined are generated but excluded from the oracle."
     ),
     "trusted_base": [
         "translator harness/translate/py2lean.py + generate.py (regenerated and cross-checked every run)",
@@ -771,11 +779,8 @@ def run(ctx: core.Ctx) -> None:
     ctx.sample({"op": "cmpi ult", "width": 4, "a": -1, "b": 1, "expect": False})
     ctx.exhaustive = True
     ctx.extra["exhaustive_scope"] = "all operand pairs of the signless range for widths 1..4, every supported integer op and cmpi predicate"
-    try:
-        from props import c15_programs
-        c15_programs.run_programs(ctx)
-    except ImportError:
-        pass
+    from props import c15_programs
+    c15_programs.run_programs(ctx)
     # last, so that the random stream seen by the generators above is the same as before this was added
     try:
         run_float_logic(ctx, impl)
@@ -793,10 +798,16 @@ def run(ctx: core.Ctx) -> None:
             ctx.count("floatsem.driver_unavailable")
         else:
             raise
+    # round 4: terminator-edge family, symbol-resolution family, multi-call sessions on one Interpreter
+    c15_programs.run_round4(ctx)
 
 
 def replay(ctx: core.Ctx, body: dict) -> int:
     case = body["case"]
+    from props import c15_programs
+    rc = c15_programs.replay_case(ctx, body)
+    if rc is not None:
+        return rc
     impl = Impl()
     if "model_line" in case:
         print("hand model arith_float_logic:", case["model_line"], "->", ctx.model("arith_float_logic", [case["model_line"]]))
